@@ -20,8 +20,15 @@ func Exec(cursor store.Cursor, expr *grammar.Grammar, settings ...ContextApply) 
 		i(&contextSettings)
 	}
 
+	// Absolute paths start at the root of the tree the cursor belongs to.
+	root := cursor
+
+	for root.Pos() != 0 {
+		root = root.Parent()
+	}
+
 	context := &exprContext{
-		root:             cursor,
+		root:             root,
 		result:           Result(NodeSet{cursor}),
 		contextPosition:  0,
 		builtinFunctions: builtinFunctions,
